@@ -11,7 +11,7 @@ use midnight_zk_stdlib::Relation;
 use midnight_zkir::{Instruction, Operation, ZkirRelation};
 
 fn esc(s: &str) -> String {
-    s.replace('\\', "\\\\").replace('"', "\\\"")
+    s.replace('\\', "\\\\").replace('"', "\\\"").replace('\n', " ")
 }
 
 fn report(key: &str, case: String, got: &str, expected: &str) {
@@ -100,11 +100,125 @@ fn c16_zkir() {
     }
 }
 
+fn incircuit_panics(r: &ZkirRelation) -> Option<String> {
+    use midnight_proofs::{circuit::Value, dev::cost_model::dummy_synthesize_run};
+    use midnight_zk_stdlib::MidnightCircuit;
+    let r = r.clone();
+    match panic::catch_unwind(panic::AssertUnwindSafe(move || {
+        let circuit = MidnightCircuit::new(&r, Value::unknown(), Value::unknown(), Some(10));
+        let _ = dummy_synthesize_run(&circuit);
+    })) {
+        Ok(()) => None,
+        Err(e) => Some(
+            e.downcast_ref::<String>().cloned().or_else(|| e.downcast_ref::<&str>().map(|s| s.to_string())).unwrap_or_else(|| "panic".into()),
+        ),
+    }
+}
+
+fn mod_exp_zero() {
+    let instr = Instruction { operation: Operation::ModExp(3), inputs: vec!["BigUint:05".into(), "BigUint:00".into()], outputs: vec!["z".into()] };
+    if let Ok(r) = ZkirRelation::from_instructions(std::slice::from_ref(&instr)) {
+        if let Some(p) = compile_panics(&r) {
+            report("mod_exp_zero_modulus", "ModExp(3) of the constants BigUint:05 and modulus BigUint:00 (off-circuit pass)".into(), &format!("ZkirRelation::public_inputs panics: {p}"), "Ok or Err");
+        }
+    }
+}
+
+/// IntoBytes(n): n is a parameter of the (untrusted) program.
+fn into_bytes_lengths() {
+    use Operation::*;
+    for n in [0usize, 1, 31, 32, 33, 64, (1usize << 32) + 1, (1usize << 32) + 32] {
+        let instr = Instruction { operation: IntoBytes(n), inputs: vec!["Native:01".into()], outputs: vec!["z".into()] };
+        if let Ok(r) = ZkirRelation::from_instructions(std::slice::from_ref(&instr)) {
+            if let Some(p) = compile_panics(&r) {
+                report("into_bytes_native", format!("IntoBytes({n}) of the constant Native:01 (off-circuit pass)"), &format!("ZkirRelation::public_inputs panics: {p}"), "Ok or Err");
+            }
+        }
+    }
+    for n in [0usize, 1, 2, 8, 64, 1000] {
+        let instr = Instruction { operation: IntoBytes(n), inputs: vec!["BigUint:05".into()], outputs: vec!["z".into()] };
+        if let Ok(r) = ZkirRelation::from_instructions(std::slice::from_ref(&instr)) {
+            if let Some(p) = incircuit_panics(&r) {
+                report("into_bytes_incircuit", format!("IntoBytes({n}) of the constant BigUint:05 (in-circuit pass, dummy synthesis)"), &format!("synthesis panics: {p}"), "Ok or Err");
+            }
+        }
+    }
+}
+
+/// Generic search: any single instruction (operation x input count x output count) that the arity
+/// validation ACCEPTS must not make the off-circuit compiler pass panic.
+fn accepted_but_panics() {
+    use midnight_zkir::IrType;
+    use Operation::*;
+    let ops = vec![
+        Load(IrType::Native), Publish, AssertEqual, AssertNotEqual, IsEqual, Add, Sub, Mul, Neg, ModExp(3), InnerProduct,
+        AffineCoordinates, IntoBytes(32), FromBytes(IrType::Native), Poseidon, Sha256, Sha512,
+    ];
+    for op in ops {
+        for ni in 0..=4usize {
+            for no in 0..=3usize {
+                let instr = Instruction { operation: op, inputs: names("in", ni), outputs: names("z", no) };
+                if let Ok(r) = ZkirRelation::from_instructions(std::slice::from_ref(&instr)) {
+                    if let Some(p) = compile_panics(&r) {
+                        for k in ["arity_table_covers_offcircuit_parser", "arity_table_covers_incircuit_parser"] {
+                            report(k, format!("{:?} with {} inputs and {} outputs: accepted by from_instructions (check_arity)", op, ni, no),
+                                   &format!("ZkirRelation::public_inputs panics: {p}"), "Ok or Err");
+                        }
+                    }
+                }
+            }
+        }
+    }
+}
+
+/// Exploratory (not tied to a contract, key `compile_panic`): single well-formed instructions with
+/// parameter edge values and inputs of every constant type must compile to Ok or Err, never panic.
+fn param_edges() {
+    use midnight_zkir::IrType;
+    use Operation::*;
+    let consts = ["1", "0", "00ff", "", "Native:01", "Native:00", "BigUint:05", "BigUint:00", "Native:", "BigUint:", "zz", "Jubjub:00", "JubjubScalar:01"];
+    let mut ops = vec![Publish, AssertEqual, AssertNotEqual, IsEqual, Add, Sub, Mul, Neg, InnerProduct, AffineCoordinates, Poseidon, Sha256, Sha512];
+    for n in [0u64, 1, 2, u64::MAX] {
+        ops.push(ModExp(n));
+    }
+    for n in [0usize, 1, 31, 32, 33, 1 << 20, usize::MAX] {
+        ops.push(IntoBytes(n));
+    }
+    for t in [IrType::Bool, IrType::Native, IrType::Bytes(0), IrType::Bytes(1), IrType::Bytes(usize::MAX), IrType::BigUint(0), IrType::BigUint(1), IrType::BigUint(u32::MAX)] {
+        ops.push(FromBytes(t));
+    }
+    let mut seen: Vec<String> = vec![];
+    for op in ops {
+        for a in consts {
+            for b in consts {
+                for (ins, outs) in [(vec![a], 1usize), (vec![a, b], 1), (vec![a, b], 0), (vec![a], 2), (vec![a], 0)] {
+                    let instr = Instruction { operation: op, inputs: ins.iter().map(|s| s.to_string()).collect(), outputs: names("z", outs) };
+                    if let Ok(r) = ZkirRelation::from_instructions(std::slice::from_ref(&instr)) {
+                        if let Some(p) = compile_panics(&r) {
+                            // one report per distinct panic message
+                            if !seen.contains(&p) && seen.len() < 20 {
+                                report("compile_panic", format!("{:?} inputs {:?} outputs {}", op, ins, outs), &format!("ZkirRelation::public_inputs panics: {p}"), "Ok or Err");
+                                seen.push(p);
+                            }
+                        }
+                    }
+                }
+            }
+        }
+    }
+}
+
 fn main() {
     let args: Vec<String> = env::args().collect();
     let mode = args.get(1).map(|s| s.as_str()).unwrap_or("");
     match mode {
-        "c16_zkir" => c16_zkir(),
+        "c16_zkir" => {
+            c16_zkir();
+            accepted_but_panics();
+            into_bytes_lengths();
+            mod_exp_zero();
+            param_edges();
+        }
         _ => {
             eprintln!("unknown mode");
             std::process::exit(2)
